@@ -7,8 +7,7 @@ after the two `fix:` commits in `_escape`* (quote values starting with `#`, `;`,
 `loop_`; test for quote characters before the leading-underscore rule).
 
 Python library semantics that are modelled rather than verified: `str.strip/lstrip/split`
-(whitespace = `isWs`), `str.splitlines` (only `'\n'` is a line boundary in the model — every
-other boundary character is whitespace and excluded by the hypotheses of the theorems),
+(whitespace = `isWs`), `str.splitlines` (boundaries = `isBreak`),
 `str.partition`, `str.ljust`, dict insertion order.
 Import-free and executable: the same definitions drive `Driver/C06.lean`.
 -/
@@ -34,11 +33,17 @@ def strip (s : Str) : Str := rstrip (lstrip s)
 /-- `str.ljust(n)` with blanks. -/
 def ljust (n : Nat) (s : Str) : Str := s ++ List.replicate (n - s.length) ' '
 
-/-- `str.splitlines()` restricted to the boundary `'\n'`. -/
+/-- The characters `str.splitlines()` treats as line boundaries (`\r\n` counts once). -/
+def isBreak (c : Char) : Bool :=
+  let n := c.toNat
+  n == 10 || n == 13 || n == 11 || n == 12 || n == 0x1c || n == 0x1d || n == 0x1e || n == 0x85 || n == 0x2028 || n == 0x2029
+
+/-- `str.splitlines()`. -/
 def splitLines : Str → List Str
   | [] => []
+  | '\r' :: '\n' :: cs => [] :: splitLines cs
   | c :: cs =>
-    if c == '\n' then [] :: splitLines cs
+    if isBreak c then [] :: splitLines cs
     else match splitLines cs with
       | [] => [[c]]
       | l :: ls => (c :: l) :: ls
@@ -88,6 +93,7 @@ def escape (v : Str) : Str :=
   else if v.head? == some '_' then quoteWith q1 v
   else if has ' ' v then quoteWith q1 v
   else if has '\t' v then quoteWith q1 v
+  else if v.any isWs then quoteWith q1 v
   else if v.head? == some '#' || v.head? == some ';' || sData.isPrefixOf v || sLoop.isPrefixOf v then quoteWith q1 v
   else v
 
@@ -95,6 +101,7 @@ def escape (v : Str) : Str :=
 
 inductive Cond where
   | hasChar (c : Char)
+  | hasWs
   | isEmpty
   | firstIs (c : Char)
   | firstIn (cs : List Char)
@@ -113,6 +120,7 @@ inductive Act where
 
 def Cond.eval : Cond → Str → Bool
   | .hasChar c, v => has c v
+  | .hasWs, v => v.any isWs
   | .isEmpty, v => v.isEmpty
   | .firstIs c, v => v.head? == some c
   | .firstIn cs, v => cs.any (fun c => v.head? == some c)
@@ -341,6 +349,8 @@ def categorySerialize (name : Str) (cols : List (Str × List Str)) : Except Err 
   match cols with
   | [] => .error .valueError
   | (_, c0) :: _ =>
+    -- names that `_<category>.<column>` could not give back are refused
+    if (name :: cols.map (·.1)).any (fun l => has '.' l || l.any isWs) then .error serr else
     let n := c0.length
     if cols.any (fun kv => kv.2.length != n) then .error serr
     else if n == 0 then .error .valueError
@@ -355,6 +365,8 @@ def catBlockText (c : Str × List (Str × List Str)) : Except Err Str :=
 
 /-- `CIFBlock.serialize()`. -/
 def blockSerialize (name : Str) (cats : List (Str × List (Str × List Str))) : Except Err Str := do
+  -- a block name with a line break is refused
+  if name.any isBreak then .error serr else
   let texts ← mapM' catBlockText cats
   .ok (sData ++ name ++ ['\n', '#', '\n'] ++ texts.flatten)
 
